@@ -58,6 +58,10 @@ def project(pid, op, out):
             return out
         return None
     if name in ("push", "pushbias", "pushh", "playh"):
+        # which move the shared selection rule picks depends on the move lists (C01) and leads to a
+        # position (C02); the other properties are compared position by position only
+        if pid not in ("C01", "C02", "C03"):
+            return None
         return [out[0].split(":")[0]] if out else out
     if name in ("new", "undo"):
         return out
